@@ -4,6 +4,8 @@ import (
 	"context"
 	"errors"
 	"fmt"
+	"math/rand"
+	"sync"
 	"sync/atomic"
 	"time"
 
@@ -17,9 +19,15 @@ import (
 
 const snapshotOffset uint64 = 5000
 
+const (
+	confChangeAttempts       int           = 5
+	confChangeAttemptTimeout time.Duration = 1 * time.Second
+)
+
 var (
 	ProcessFnAlreadyRegisteredErr  error = errors.New("ProcessFn already registered")
 	SnapshotFnAlreadyRegisteredErr error = errors.New("SnapshotFn already registered")
+	ConfChangeNotAppliedErr        error = errors.New("Membership change was not applied")
 )
 
 type Group interface {
@@ -48,6 +56,9 @@ type RaftGroup struct {
 	wal           wal.WAL
 	log           *log.Entry
 	done          chan struct{}
+
+	confChangeWaiters   map[uint64]chan struct{}
+	confChangeWaitersMu sync.Mutex
 }
 
 func startRaftNode(id uint64, address string, nodeIds []uint64, storage wal.WAL, logger *log.Entry) (etcdRaft.Node, error) {
@@ -128,6 +139,8 @@ func NewRaftGroup(id uuid.UUID, nodeIds []uint64, storage wal.WAL, transport *Ra
 		raft:              raftNode,
 		wal:               storage,
 		log:               logger,
+
+		confChangeWaiters: make(map[uint64]chan struct{}),
 	}
 
 	if err := transport.addGroup(g); err != nil {
@@ -215,6 +228,57 @@ func (this *RaftGroup) ProposeLeave(nodeId uint64) error {
 	cc.NodeID = nodeId
 
 	return this.raft.ProposeConfChange(this.ctx, cc)
+}
+
+// Proposes a membership change and returns once this node has applied it. A proposal can be lost
+// (no leader, a forward to a deposed leader, another membership change still pending), so it is
+// repeated a few times; membership changes are idempotent.
+func (this *RaftGroup) ProposeJoinAndWait(nodeId uint64, address string) error {
+	return this.proposeConfChangeAndWait(raftpb.ConfChange{Type: raftpb.ConfChangeAddNode, NodeID: nodeId, Context: []byte(address)})
+}
+
+func (this *RaftGroup) ProposeLeaveAndWait(nodeId uint64) error {
+	return this.proposeConfChangeAndWait(raftpb.ConfChange{Type: raftpb.ConfChangeRemoveNode, NodeID: nodeId})
+}
+
+func (this *RaftGroup) proposeConfChangeAndWait(cc raftpb.ConfChange) error {
+	for attempt := 0; attempt < confChangeAttempts; attempt++ {
+		if err := this.ctx.Err(); err != nil {
+			return err
+		}
+		cc.ID = rand.Uint64()
+		applied := make(chan struct{})
+		this.confChangeWaitersMu.Lock()
+		this.confChangeWaiters[cc.ID] = applied
+		this.confChangeWaitersMu.Unlock()
+
+		ctx, cancelCtx := context.WithTimeout(this.ctx, confChangeAttemptTimeout)
+		err := this.raft.ProposeConfChange(ctx, cc)
+		if err == nil {
+			select {
+			case <-applied:
+				cancelCtx()
+				return nil
+			case <-ctx.Done():
+			}
+		}
+		cancelCtx()
+
+		this.confChangeWaitersMu.Lock()
+		delete(this.confChangeWaiters, cc.ID)
+		this.confChangeWaitersMu.Unlock()
+	}
+	return ConfChangeNotAppliedErr
+}
+
+func (this *RaftGroup) notifyConfChangeApplied(id uint64) {
+	this.confChangeWaitersMu.Lock()
+	defer this.confChangeWaitersMu.Unlock()
+
+	if applied, exists := this.confChangeWaiters[id]; exists {
+		close(applied)
+		delete(this.confChangeWaiters, id)
+	}
 }
 
 func (this *RaftGroup) run() {
@@ -310,6 +374,7 @@ func (this *RaftGroup) processConfChange(entry raftpb.Entry) error {
 	}
 
 	this.raftConfState = this.raft.ApplyConfChange(cc)
+	this.notifyConfChangeApplied(cc.ID)
 	return nil
 }
 
